@@ -179,6 +179,10 @@ def run_task(t):
         except Exception as e:
             res['merged'] = exc_info(e)
         return res
+    if op == 'cli_strategies':
+        import nbdime.merging.notebooks as MN
+        return {'merge': list(MN.cli_conflict_strategies), 'input': list(MN.cli_conflict_strategies_input),
+                'output': list(MN.cli_conflict_strategies_output), 'generic': list(MN.generic_conflict_strategies)}
     raise ValueError('unknown op ' + op)
 
 def main():
